@@ -284,7 +284,7 @@ func TestVerifWire(t *testing.T) {
 		return vwFrame(append(append([]byte{}, vwPrefix[:]...), encoder.Serialize(&vwMsg{A: a, B: []byte{byte(a), 2, 3}})...))
 	}
 	waitEmpty := func() {
-		for i := 0; i < 400; i++ {
+		for i := 0; i < 4000; i++ { // up to 20 s on a loaded machine; returns as soon as the pool is empty
 			if n, err := pool.Size(); err == nil && n == 0 {
 				return
 			}
@@ -297,7 +297,7 @@ func TestVerifWire(t *testing.T) {
 	}
 	for i := 0; i < nconn; i++ {
 		left := []string{"half-frame", "bad-length", "frame-and-prefix-bytes", "nothing", "prefix-only"}[i%5]
-		if ca, err := net.DialTimeout("tcp", la, time.Second); err == nil {
+		if ca, err := net.DialTimeout("tcp", la, 10*time.Second); err == nil {
 			fr := body(uint32(1000 + i))
 			switch left {
 			case "half-frame":
@@ -318,9 +318,9 @@ func TestVerifWire(t *testing.T) {
 		}
 		sent := []int{2*i + 1, 2*i + 2}
 		delivered := []int{}
-		if cb, err := net.DialTimeout("tcp", la, time.Second); err == nil {
+		if cb, err := net.DialTimeout("tcp", la, 10*time.Second); err == nil {
 			_, _ = cb.Write(append(body(uint32(sent[0])), body(uint32(sent[1]))...))
-			deadline := time.After(3 * time.Second)
+			deadline := time.After(30 * time.Second) // only ever waited out when a message is really lost
 		recv:
 			for len(delivered) < 2 {
 				select {
